@@ -192,49 +192,222 @@ fn library_fns(file: &syn::File) -> Result<Vec<LibFn>, String> {
 
 // ------------------------------------------------------------- panic surface
 
-#[derive(Default)]
-struct Surface(Vec<&'static str>);
-impl<'ast> Visit<'ast> for Surface {
-    fn visit_expr_method_call(&mut self, m: &'ast syn::ExprMethodCall) {
-        match m.method.to_string().as_str() {
-            "unwrap" | "unwrap_err" | "unwrap_unchecked" => self.0.push("unwrap"),
-            "expect" | "expect_err" => self.0.push("expect"),
-            _ => {}
+/// Std (and inetnum) methods that are documented to panic on some arguments of
+/// their parameter types: a call of one of them inside a built-in is a panic
+/// site exactly like an index expression (`Risk.partial_call`).
+const PARTIAL_METHODS: &[&str] = &[
+    "split_at", "split_at_mut", "split_off", "remove", "insert", "insert_str", "swap", "swap_remove", "drain",
+    "copy_from_slice", "clone_from_slice", "copy_within", "swap_with_slice", "reserve", "reserve_exact", "repeat",
+    "chunks", "chunks_exact", "rchunks", "windows", "step_by", "rotate_left", "rotate_right", "truncate",
+    "replace_range", "extend_from_within", "to_digit", "sum", "product", "borrow_mut", "pow", "isqrt", "ilog",
+    "ilog2", "ilog10", "div_euclid", "rem_euclid", "next_power_of_two", "unchecked_add", "unchecked_sub", "unchecked_mul", "get_unchecked", "get_unchecked_mut", "as_str_unchecked",
+    "array_chunks", "array_windows", "select_nth_unstable",
+    "set_len", "assume_init", "strict_add", "strict_sub", "strict_mul",
+];
+/// Paths of associated functions that panic on some arguments (matched on the last two segments).
+const PARTIAL_PATHS: &[&str] = &[
+    "String::with_capacity", "Vec::with_capacity", "VecDeque::with_capacity", "HashMap::with_capacity",
+    "char::from_digit", "char::from_u32_unchecked", "Layout::from_size_align_unchecked", "slice::from_raw_parts",
+    "slice::from_raw_parts_mut", "str::from_utf8_unchecked", "String::from_utf8_unchecked", "Duration::from_secs_f64",
+    "Duration::from_secs_f32", "Vec::from_raw_parts", "String::from_raw_parts", "ptr::copy_nonoverlapping",
+    "ptr::swap_nonoverlapping", "ptr::read", "ptr::write", "ptr::copy",
+];
+/// Methods read as TOTAL: defined on every argument of their parameter types for every std
+/// (or inetnum) receiver type a binding handles — they return a value, an `Option` or a
+/// `Result`; allocation failure is the documented memory limit.  Not type-directed: where a
+/// name is total on one receiver type and partial on another it is listed under
+/// PARTIAL_METHODS unless noted.  (`abs`, `floor`, … are the float methods of the float
+/// bindings; on an integer `abs` can overflow — an integer `abs` inside a binding would have
+/// to be reviewed here.)
+const TOTAL_METHODS: &[&str] = &[
+    // conversions, references, smart pointers
+    "into", "try_into", "as_ref", "as_mut", "as_str", "as_bytes", "as_slice", "to_string", "to_owned", "to_vec", "clone",
+    "cloned", "copied", "borrow", "deref", "as_ptr", "as_mut_ptr", "cast", "get_ref", "to_canonical", "into_iter",
+    "iter", "iter_mut", "into_boxed_str", "into_bytes", "into_string", "as_deref",
+    // Option / Result / bool (the panicking ones are `unwrap` / `expect`)
+    "ok", "err", "ok_or", "ok_or_else", "or", "or_else", "and", "and_then", "map", "map_err", "map_or", "map_or_else",
+    "is_some", "is_none", "is_ok", "is_err", "is_some_and", "is_ok_and", "is_none_or", "unwrap_or", "unwrap_or_else",
+    "unwrap_or_default", "then", "then_some", "filter", "flatten", "take", "zip", "xor", "get_or_insert_with",
+    // str / String
+    "len", "is_empty", "contains", "starts_with", "ends_with", "find", "rfind", "matches", "to_lowercase",
+    "to_uppercase", "match_indices", "rmatch_indices", "to_ascii_lowercase", "to_ascii_uppercase", "split", "rsplit", "splitn", "rsplitn", "split_once",
+    "rsplit_once", "split_whitespace", "split_terminator", "lines", "chars", "char_indices", "bytes", "trim",
+    "trim_start", "trim_end", "trim_matches", "trim_start_matches", "trim_end_matches", "strip_prefix", "strip_suffix",
+    "replace", "replacen", "is_char_boundary", "get", "get_mut", "push", "push_str", "pop", "clear", "parse",
+    "eq_ignore_ascii_case", "is_ascii", "len_utf8", "is_alphabetic", "is_numeric", "is_alphanumeric", "is_whitespace",
+    "is_ascii_digit",
+    // iterators
+    "next", "next_back", "nth", "last", "count", "rev", "skip", "skip_while", "take_while", "chain", "enumerate",
+    "filter_map", "flat_map", "fold", "try_fold", "all", "any", "position", "rposition", "find_map", "collect", "extend",
+    "extend_from_slice", "peekable", "peek", "min", "max", "min_by_key", "max_by_key", "for_each", "inspect", "once",
+    "first", "last_mut", "first_mut", "split_first", "split_last", "concat", "join", "dedup", "retain", "sort",
+    "sort_unstable", "sort_by", "sort_by_key", "reverse", "binary_search", "fill",
+    // integers (checked / wrapping / saturating families), comparisons
+    "checked_add", "checked_sub", "checked_mul", "checked_div", "checked_rem", "checked_neg", "checked_pow",
+    "checked_shl", "checked_shr", "checked_next_power_of_two", "wrapping_add", "wrapping_sub", "wrapping_mul",
+    "wrapping_neg", "wrapping_shl", "wrapping_shr", "saturating_add", "saturating_sub", "saturating_mul",
+    "overflowing_add", "overflowing_sub", "overflowing_mul", "eq", "ne", "cmp", "partial_cmp", "lt", "le", "gt", "ge",
+    "leading_zeros", "trailing_zeros", "count_ones", "abs_diff", "to_bits", "from_bits", "to_le_bytes", "to_be_bytes",
+    "to_ne_bytes",
+    // floats
+    "floor", "ceil", "round", "trunc", "abs", "sqrt", "powf", "powi", "is_nan", "is_infinite", "is_finite", "signum",
+    "mul_add",
+    // addresses and prefixes (std::net, inetnum)
+    "is_ipv4", "is_ipv6", "addr", "min_addr", "max_addr", "octets", "segments", "to_ipv4_mapped", "to_ipv6_mapped",
+    "is_loopback", "is_unspecified", "is_multicast",
+    // synchronisation: acquiring never panics by itself, its `unwrap` is counted as `unwrap`
+    "lock", "try_lock", "read", "write",
+];
+/// Paths of functions and constructors read as total (last two segments, or the single segment).
+const TOTAL_PATHS: &[&str] = &[
+    "Some", "Ok", "Err", "Self", "Box::new", "Arc::new", "Rc::new", "Arc::ptr_eq", "Arc::as_ptr", "Arc::clone",
+    "String::new", "Vec::new", "String::from", "Vec::from", "Into::into", "From::from", "RotoString::from",
+    "RotoString::new", "Default::default", "IpAddr::from", "IpAddr::V4", "IpAddr::V6", "Ipv4Addr::from",
+    "Ipv6Addr::from", "Ipv4Addr::new", "Ipv6Addr::new", "Prefix::new_relaxed", "Prefix::new", "char::from_u32",
+    "char::from", "u64::from", "u32::from", "u8::from", "usize::from", "u64::try_from", "usize::try_from",
+    "u32::try_from", "u8::try_from", "iter::once", "iter::empty", "iter::repeat", "mem::take", "mem::swap",
+    "mem::replace", "mem::size_of", "mem::align_of", "mem::transmute", "mem::drop", "drop", "str::from_utf8",
+    "String::from_utf8", "String::from_utf8_lossy", "f64::from", "f32::from", "Option::Some", "PartialEq::eq",
+    "Ord::cmp", "ToString::to_string", "Clone::clone", "AsRef::as_ref", "Val", "List::new", "List::from",
+    "ErasedList::new", "StringBuf::new", "Asn::from_u32", "Asn::from", "Mutex::new",
+    // unsafe constructors: their obligations are what `Risk.unsafe_` flags (they are inside `unsafe { }`)
+    "NonNull::new_unchecked",
+];
+/// Macros whose expansion contains no panic site of its own (their arguments are walked).
+const TOTAL_MACROS: &[&str] = &["format", "vec", "matches", "write", "writeln", "concat", "stringify"];
+const PANIC_MACROS: &[&str] = &["panic", "assert", "assert_eq", "assert_ne", "unreachable", "todo", "unimplemented", "ice",
+    "debug_assert", "debug_assert_eq", "debug_assert_ne"];
+
+/// Panic surface of a body: the syntactic constructs that can panic AND every call
+/// classified against the tables above — `partial_call` (a function documented to panic
+/// on some arguments) or `unknown_call` (a function the tables do not know: not read as
+/// total).  `own` = the names of the methods of the project's own value types
+/// (string.rs, list.rs): a call `self.m(..)` / `this.m(..)` / `Type::m(..)` of one of
+/// them is the project's method, whose own body has its own row (string.rs) or is the
+/// subject of C10B/C10C/C10V (list.rs).
+struct Surface<'o> {
+    risks: Vec<&'static str>,
+    unknown: Vec<String>,
+    own: &'o HashSet<String>,
+}
+impl Surface<'_> {
+    fn method(&mut self, name: &str, recv: &str) {
+        let own_recv = matches!(recv, "self" | "this" | "list" | "raw" | "*self" | "&self" | "other");
+        match name {
+            // `m.lock().unwrap()`: the `Err` of a blocking acquisition is poisoning only
+            // (mutexes are assumed unpoisoned, as in C10C); `try_lock().unwrap()` stays an `unwrap`
+            "unwrap" | "expect" if recv.ends_with(".lock()") || recv.ends_with(".read()") || recv.ends_with(".write()") => {
+                self.risks.push("lock_unwrap")
+            }
+            "unwrap" | "unwrap_err" | "unwrap_unchecked" => self.risks.push("unwrap"),
+            "expect" | "expect_err" => self.risks.push("expect"),
+            n if own_recv && self.own.contains(n) => {}
+            n if PARTIAL_METHODS.contains(&n) => self.risks.push("partial_call"),
+            n if TOTAL_METHODS.contains(&n) => {}
+            n if self.own.contains(n) => {}
+            n => {
+                self.risks.push("unknown_call");
+                self.unknown.push(format!(".{n}()"));
+            }
         }
+    }
+    fn path(&mut self, segs: &[String]) {
+        let last = segs.last().cloned().unwrap_or_default();
+        let two = if segs.len() >= 2 { format!("{}::{}", segs[segs.len() - 2], last) } else { last.clone() };
+        if PARTIAL_PATHS.contains(&two.as_str()) {
+            self.risks.push("partial_call");
+        } else if TOTAL_PATHS.contains(&two.as_str()) || (segs.len() == 1 && TOTAL_PATHS.contains(&last.as_str())) {
+        } else if segs.len() >= 2 && self.own.contains(&last)
+            && matches!(segs[segs.len() - 2].as_str(), "Self" | "RotoString" | "ErasedList" | "RawList" | "List" | "StringBytes" | "StringChars" | "StringLines" | "StringBuf") {
+        } else if segs.len() == 1 && self.own.contains(&last) {
+            // a free function of the value-type files (`list_get`)
+        } else if segs.len() == 1 && last.chars().next().is_some_and(|c| c.is_uppercase()) {
+            // a tuple-struct / enum-variant constructor
+        } else if segs.len() == 2 && segs[0].chars().next().is_some_and(|c| c.is_uppercase())
+            && last.chars().next().is_some_and(|c| c.is_uppercase()) {
+            // `Enum::Variant(..)`
+        } else {
+            self.risks.push("unknown_call");
+            self.unknown.push(two);
+        }
+    }
+}
+impl<'ast> Visit<'ast> for Surface<'_> {
+    fn visit_expr_method_call(&mut self, m: &'ast syn::ExprMethodCall) {
+        let recv = m.receiver.to_token_stream().to_string().replace(' ', "");
+        self.method(&m.method.to_string(), &recv);
         syn::visit::visit_expr_method_call(self, m);
     }
+    fn visit_expr_call(&mut self, c: &'ast syn::ExprCall) {
+        match &*c.func {
+            Expr::Path(p) => {
+                let segs: Vec<String> = p.path.segments.iter().map(|s| s.ident.to_string()).collect();
+                self.path(&segs);
+            }
+            other => {
+                // a call through a closure / function pointer / field: not a known function
+                self.risks.push("unknown_call");
+                self.unknown.push(format!("({})(..)", other.to_token_stream().to_string().replace(' ', "")));
+            }
+        }
+        syn::visit::visit_expr_call(self, c);
+    }
     fn visit_expr_index(&mut self, i: &'ast syn::ExprIndex) {
-        self.0.push("index");
+        self.risks.push("index");
         syn::visit::visit_expr_index(self, i);
     }
     fn visit_macro(&mut self, m: &'ast syn::Macro) {
         let n = m.path.segments.last().map(|s| s.ident.to_string()).unwrap_or_default();
-        if ["panic", "assert", "assert_eq", "assert_ne", "unreachable", "todo", "unimplemented", "ice"].contains(&n.as_str()) {
-            self.0.push("panic_macro");
+        if PANIC_MACROS.contains(&n.as_str()) {
+            self.risks.push("panic_macro");
+        } else if !TOTAL_MACROS.contains(&n.as_str()) {
+            self.risks.push("unknown_call");
+            self.unknown.push(format!("{n}!"));
+        }
+        // the arguments are expressions: walk them (a panic site inside `format!(..)` counts)
+        use syn::punctuated::Punctuated;
+        match m.parse_body_with(Punctuated::<Expr, syn::Token![,]>::parse_terminated) {
+            Ok(args) => {
+                for a in &args {
+                    self.visit_expr(a);
+                }
+            }
+            Err(_) => {
+                if !PANIC_MACROS.contains(&n.as_str()) {
+                    self.risks.push("unknown_call");
+                    self.unknown.push(format!("{n}!(unparsed arguments)"));
+                }
+            }
         }
     }
     fn visit_expr_binary(&mut self, b: &'ast syn::ExprBinary) {
         use syn::BinOp::*;
         if matches!(b.op, Add(_) | Sub(_) | Mul(_) | Div(_) | Rem(_) | Shl(_) | Shr(_) | AddAssign(_) | SubAssign(_)
             | MulAssign(_) | DivAssign(_) | RemAssign(_) | ShlAssign(_) | ShrAssign(_)) {
-            self.0.push("arith");
+            self.risks.push("arith");
         }
         syn::visit::visit_expr_binary(self, b);
     }
+    fn visit_expr_unary(&mut self, u: &'ast syn::ExprUnary) {
+        if matches!(u.op, syn::UnOp::Neg(_)) && !matches!(&*u.expr, Expr::Lit(_)) {
+            self.risks.push("arith");
+        }
+        syn::visit::visit_expr_unary(self, u);
+    }
     fn visit_expr_cast(&mut self, c: &'ast syn::ExprCast) {
-        self.0.push("cast");
+        self.risks.push("cast");
         syn::visit::visit_expr_cast(self, c);
     }
     fn visit_expr_unsafe(&mut self, u: &'ast syn::ExprUnsafe) {
-        self.0.push("unsafe_");
+        self.risks.push("unsafe_");
         syn::visit::visit_expr_unsafe(self, u);
     }
 }
 
-fn surface_of(b: &syn::Block) -> Vec<&'static str> {
-    let mut s = Surface::default();
+fn surface_of(b: &syn::Block, own: &HashSet<String>) -> (Vec<&'static str>, Vec<String>) {
+    let mut s = Surface { risks: vec![], unknown: vec![], own };
     s.visit_block(b);
-    s.0
+    (s.risks, s.unknown)
 }
 
 fn ctor_name(impl_ty: &str, f: &str) -> String {
@@ -382,6 +555,20 @@ impl W {
                 };
                 self.if_(&i.cond, then, els)
             }
+            Expr::Match(m) => {
+                // `match scrutinee { pat => { … }, pat => expr }` in tail position (no guards)
+                let scrut = self.v(&m.expr)?;
+                let mut arms = String::new();
+                for a in &m.arms {
+                    if a.guard.is_some() {
+                        return Err("unsupported: match guard".into());
+                    }
+                    let pat = self.pat(&a.pat)?;
+                    let body = self.tail(&a.body)?;
+                    arms.push_str(&format!("\n | {pat} => {body}"));
+                }
+                Ok(format!("(do match {scrut} with{arms})"))
+            }
             other => Ok(format!("(do pure {})", self.v(other)?)),
         }
     }
@@ -450,6 +637,10 @@ impl VisitMut for Pre<'_> {
                             let a = self.lean(a);
                             Some(self.w.placeholder(format!("(← Str.index_from {recv} {a})")))
                         }
+                        (None, Some(b)) if matches!(r.limits, syn::RangeLimits::HalfOpen(_)) => {
+                            let b = self.lean(b);
+                            Some(self.w.placeholder(format!("(← Str.index_range {recv} (0 : Nat) {b})")))
+                        }
                         _ => {
                             *self.err = Some("unsupported range form in an index expression".into());
                             None
@@ -481,6 +672,19 @@ impl VisitMut for Pre<'_> {
                             *self.err = Some("unsupported range form in `get`".into());
                             None
                         }
+                    }
+                } else if name == "then_some" && args.len() == 1 {
+                    let (c, v) = (self.lean(&mc.receiver), self.lean(&args[0]));
+                    Some(self.w.placeholder(format!("(if {c} then some {v} else none)")))
+                } else if name == "then" && args.len() == 1 && matches!(&args[0], Expr::Closure(c) if c.inputs.is_empty()) {
+                    // `cond.then(|| value)`
+                    let Expr::Closure(cl) = &args[0] else { unreachable!() };
+                    let (c, v) = (self.lean(&mc.receiver), self.lean(&cl.body));
+                    if v.contains('←') {
+                        *self.err = Some("unsupported: fallible closure in `then`".into());
+                        None
+                    } else {
+                        Some(self.w.placeholder(format!("(if {c} then some {v} else none)")))
                     }
                 } else if (name == "and_then" || name == "map") && args.len() == 1 {
                     if let Some((p, b)) = self.closure1(&args[0]) {
@@ -548,6 +752,13 @@ fn base_cx() -> Cx {
     cx.methods.insert("collect".into(), Meth::Identity);
     cx.methods.insert("to_vec".into(), Meth::Identity);
     cx.methods.insert("join".into(), Meth::Pure("Str.join".into()));
+    // the substring family of `str` (Model/Builtins), and the byte-offset vocabulary a
+    // hand-written replacement of one of them would use (`split_at` panics off a boundary)
+    for m in ["contains", "starts_with", "ends_with", "strip_prefix", "strip_suffix", "split", "is_empty",
+        "is_char_boundary", "split_at_checked"] {
+        cx.methods.insert(m.into(), Meth::Pure(format!("Str.{m}")));
+    }
+    cx.methods.insert("split_at".into(), Meth::Fallible("Str.split_at".into()));
     cx.paths.insert("Prefix::new_relaxed".into(), "Prefix.new_relaxed".into());
     cx
 }
@@ -602,42 +813,120 @@ pub fn c10builtins(repo: &Path) -> Result<String, String> {
         out.push_str(&emit(&w, lean, "(s : Str) (n : USz) (separator : Str)", "List Str", &fb.block)?);
     }
     {
+        // the substring family of RotoString: one std call each on this tree; transliterated, so that a
+        // hand-written replacement (byte offsets, `split_at`, indexing) becomes checked code the theorems
+        // `*_no_panic` have to discharge — or leaves the subset (extraction failure)
+        let w3 = W { cx: RefCell::new(base_cx()), self_methods: BTreeMap::new(), counter: RefCell::new(0) };
+        w3.cx.borrow_mut().paths.insert("self".into(), "s".into());
+        let sub_fns: [(&str, &str, &str); 6] = [
+            ("contains", "(s : Str) (needle : Str)", "Bool"),
+            ("starts_with", "(s : Str) (prefix_ : Str)", "Bool"),
+            ("ends_with", "(s : Str) (suffix : Str)", "Bool"),
+            ("strip_prefix", "(s : Str) (prefix_ : Str)", "Option Str"),
+            ("strip_suffix", "(s : Str) (suffix : Str)", "Option Str"),
+            ("split", "(s : Str) (separator : Str)", "List Str"),
+        ];
+        for (f, binders, ret) in sub_fns {
+            let lean = format!("RotoString_{f}");
+            let mut fb = find::func(&string, f, Some("RotoString"))?;
+            replace(&mut fb.block, &s0, &[("self.0.0", 1)], &lean)?;
+            out.push_str(&emit(&w3, &lean, binders, ret, &fb.block)?);
+        }
+    }
+    {
         // StringChars::slice: the iterator expression is named, the rest is transliterated
         let mut fb = find::func(&string, "slice", Some("StringChars"))?;
         let it = "self.0.0.char_indices().map(|(byte, _)| byte).chain(std::iter::once(self.0.0.len()))";
-        replace(&mut fb.block, &[(it, "str_boundary_iter(s)"), ("\"\".into()", "str_empty"), ("self.0.0", "s")],
-            &[(it, 1), ("self.0.0", 1)], "StringChars_slice")?;
+        // the same iterator over a local `let s = &self.0.0;`
+        let it2 = "s.char_indices().map(|(byte, _)| byte).chain(std::iter::once(s.len()))";
+        let mut fb2 = fb.clone();
+        if replace(&mut fb.block, &[(it, "str_boundary_iter(s)"), ("\"\".into()", "str_empty"), ("self.0.0", "s")],
+            &[(it, 1), ("self.0.0", 1)], "StringChars_slice").is_err() {
+            replace(&mut fb2.block, &[(it2, "str_boundary_iter(s)"), ("\"\".into()", "str_empty"), ("self.0.0", "s")],
+                &[(it2, 1), ("self.0.0", 1)], "StringChars_slice")?;
+            fb = fb2;
+        }
         w.cx.borrow_mut().paths.insert("str_boundary_iter".into(), "Str.boundary_iter".into());
         w.cx.borrow_mut().paths.insert("str_empty".into(), "Str.empty".into());
         out.push_str(&emit(&w, "StringChars_slice", "(s : Str) (i j : USz)", "Option Str", &fb.block)?);
     }
     {
-        // StringLines::slice has two `for` loops over one iterator: hand-modelled
-        // (`StringLines_slice_model`); its validation prefix is still tied here.
-        let fb = find::func(&string, "slice", Some("StringLines"))?;
-        let first = fb.block.stmts.first().map(|s| s.to_token_stream().to_string().replace(' ', "")).unwrap_or_default();
-        if first != "letnum=j.checked_sub(i)?;" {
-            return Err(format!("StringLines::slice: expected `let num = j.checked_sub(i)?;` first, found `{first}`"));
-        }
-        let idx: Vec<String> = {
-            struct Ix(Vec<String>);
-            impl<'ast> Visit<'ast> for Ix {
-                fn visit_expr_index(&mut self, i: &'ast syn::ExprIndex) {
-                    self.0.push(i.to_token_stream().to_string().replace(' ', ""));
+        // StringLines::slice: transliterated statement by statement.  Its two loops have the shape
+        //     let mut CUR = INIT; for _ in A..B { let idx = IT.next()?; CUR = idx; }
+        // (a manual skip/take that answers `None` when the iterator runs dry); each is read as
+        //     let (CUR, IT) = str_advance(IT, A, B, INIT)?;        (`Str.advanceR`, Model/Builtins)
+        // and the newline-offset iterator expression is named (`Str.after_newlines`: `byte + 1` is bounded by
+        // the string's length).  Everything else — the `checked_sub`, the optional end offset, the `num == 0`
+        // early return, `chain`, the final `&s[start_idx..end_idx]` — is the source's.  Any other loop shape
+        // fails extraction.
+        let mut fb = find::func(&string, "slice", Some("StringLines"))?;
+        let it = "s.match_indices('\\n').map(|(byte, _)| byte + 1)";
+        replace(&mut fb.block, &[(it, "str_after_newlines(s)"), ("s.ends_with('\\n')", "str_ends_with_nl(s)"),
+            ("Some(s.len())", "Some(str_byte_len(s))"), ("RotoString::new(\"\")", "str_empty"), ("self.0.0", "s")],
+            &[(it, 1), ("s.ends_with('\\n')", 1), ("Some(s.len())", 1), ("self.0.0", 1)], "StringLines_slice")?;
+        let norm = |x: &dyn ToTokens| x.to_token_stream().to_string().replace(' ', "");
+        let mut stmts: Vec<Stmt> = vec![];
+        let src = fb.block.stmts.clone();
+        let mut k = 0;
+        let mut loops = 0;
+        while k < src.len() {
+            if let (Stmt::Local(l), Some(Stmt::Expr(Expr::ForLoop(fl), _))) = (&src[k], src.get(k + 1)) {
+                // `let mut CUR = INIT;` followed by the loop
+                let cur = match &l.pat { Pat::Ident(pi) if pi.mutability.is_some() => pi.ident.to_string(), _ => String::new() };
+                let init = l.init.as_ref().map(|i| norm(&i.expr)).unwrap_or_default();
+                let (a, b) = match &*fl.expr {
+                    Expr::Range(r) if matches!(r.limits, syn::RangeLimits::HalfOpen(_)) => match (&r.start, &r.end) {
+                        (Some(a), Some(b)) => (norm(a), norm(b)),
+                        _ => return Err("StringLines::slice: loop range without both ends".into()),
+                    },
+                    other => return Err(format!("StringLines::slice: loop over `{}`", norm(other))),
+                };
+                let body: Vec<String> = fl.body.stmts.iter().map(|s| norm(s)).collect();
+                // `let V = IT.next()?; CUR = V;` (any names)
+                let (var, iter_name) = body.first().and_then(|s| s.strip_prefix("let")).and_then(|s| s.strip_suffix(".next()?;"))
+                    .and_then(|s| s.split_once('=')).map(|(v, it)| (v.to_string(), it.to_string())).unwrap_or_default();
+                let is_ident = |x: &str| !x.is_empty() && x.chars().all(|c| c.is_alphanumeric() || c == '_');
+                let mut ok = !cur.is_empty() && norm(&fl.pat) == "_" && body.len() == 2 && is_ident(&var) && is_ident(&iter_name)
+                    && body[1] == format!("{cur}={var};");
+                // … or without the temporary: `CUR = IT.next()?;`
+                let mut iter_name = iter_name;
+                if !ok && !cur.is_empty() && norm(&fl.pat) == "_" && body.len() == 1 {
+                    if let Some(it) = body[0].strip_prefix(&format!("{cur}=")).and_then(|s| s.strip_suffix(".next()?;")) {
+                        if is_ident(it) {
+                            iter_name = it.to_string();
+                            ok = true;
+                        }
+                    }
                 }
+                if !ok {
+                    return Err(format!("StringLines::slice: loop not of the skip/take shape: let mut {cur} = {init}; for {} in {a}..{b} {{ {} }}", norm(&fl.pat), body.join(" ")));
+                }
+                let st = format!("let ({cur}, {iter_name}) = str_advance({iter_name}, {a}, {b}, {init})?;");
+                stmts.push(syn::parse_str::<Stmt>(&st).map_err(|e| format!("StringLines::slice: {e}"))?);
+                loops += 1;
+                k += 2;
+                continue;
             }
-            let mut v = Ix(vec![]);
-            v.visit_block(&fb.block);
-            v.0
-        };
-        if idx != ["self.0.0[start_idx..end_idx]"] {
-            return Err(format!("StringLines::slice: index expressions changed: {idx:?}"));
+            if matches!(&src[k], Stmt::Expr(Expr::ForLoop(_), _) | Stmt::Expr(Expr::While(_), _) | Stmt::Expr(Expr::Loop(_), _)) {
+                return Err("StringLines::slice: a loop that is not preceded by `let mut CUR = INIT;`".into());
+            }
+            stmts.push(src[k].clone());
+            k += 1;
         }
-        let loops = fb.block.stmts.iter().filter(|s| matches!(s, Stmt::Expr(Expr::ForLoop(_), _))).count();
         if loops != 2 {
-            return Err(format!("StringLines::slice: expected two for loops, found {loops}"));
+            return Err(format!("StringLines::slice: expected two skip/take loops, found {loops}"));
         }
-        out.push_str("def StringLines_slice (dbg : Bool) (s : Str) (i j : USz) : Res (Option Str) :=\n StringLines_slice_model s i j\n\n");
+        let w4 = W { cx: RefCell::new(base_cx()), self_methods: BTreeMap::new(), counter: RefCell::new(0) };
+        {
+            let mut cx = w4.cx.borrow_mut();
+            for (r, l) in [("str_after_newlines", "Str.after_newlines"), ("str_ends_with_nl", "Str.ends_with_nl"),
+                ("str_byte_len", "Str.byteLen"), ("str_empty", "Str.empty"), ("str_advance", "Str.advanceR")] {
+                cx.paths.insert(r.into(), l.into());
+            }
+            cx.methods.insert("chain".into(), Meth::Pure("Str.chain_opt".into()));
+        }
+        let blk = syn::Block { brace_token: Default::default(), stmts };
+        out.push_str(&emit(&w4, "StringLines_slice", "(s : Str) (i j : USz)", "Option Str", &blk)?);
     }
 
     // ------------------------------------------------------ src/value/list.rs
@@ -674,6 +963,7 @@ pub fn c10builtins(repo: &Path) -> Result<String, String> {
         // (`let raw = this.0.lock().unwrap();`, the lock events are C10C's / C16's
         // subject) and cfg(verif-hooks) statements may stand
         let mut scrut = None;
+        let mut pending: Option<(String, Expr)> = None;
         for st in f.block.stmts.iter().skip(1) {
             let txt = st.to_token_stream().to_string().replace(' ', "");
             if txt.starts_with("#[cfg(feature=\"verif-hooks\")]") { continue; }
@@ -684,7 +974,22 @@ pub fn c10builtins(repo: &Path) -> Result<String, String> {
                     if rhs == "0.lock().unwrap();" || helper_call { continue; }
                 }
             }
-            if let Stmt::Expr(Expr::Match(m), _) = st { scrut = Some((*m.expr).clone()); }
+            // the lookup bound to a local first: `let looked_up = <expr with .get(..)>; match looked_up { … }`
+            if let Stmt::Local(l) = st {
+                if let (Pat::Ident(pi), Some(init)) = (&l.pat, &l.init) {
+                    if pending.is_none() && init.diverge.is_none() && txt.contains(".get(") {
+                        pending = Some((pi.ident.to_string(), (*init.expr).clone()));
+                        continue;
+                    }
+                }
+            }
+            if let Stmt::Expr(Expr::Match(m), _) = st {
+                scrut = match &pending {
+                    Some((name, e)) if m.expr.to_token_stream().to_string().replace(' ', "") == *name => Some(e.clone()),
+                    Some(_) => None,
+                    None => Some((*m.expr).clone()),
+                };
+            }
             break;
         }
         let scrut = scrut.ok_or("list_get: expected `match idx.and_then(..)` after the index conversion (and the lock acquisition)")?;
@@ -706,7 +1011,7 @@ pub fn c10builtins(repo: &Path) -> Result<String, String> {
             n => Err(format!("binding {imp}.{name}: {n} definitions found in library! blocks")),
         }
     };
-    let bindings: [(&str, &str, &str, &str, &str, &[(&str, &str)]); 15] = [
+    let bindings: [(&str, &str, &str, &str, &str, &[(&str, &str)]); 21] = [
         ("StringBytes", "len", "(self_ : Str)", "U64", "StringBytes", &[("len", "StringBytes_len")]),
         ("StringBytes", "get", "(self_ : Str) (idx : U64)", "Option Char", "StringBytes", &[("get", "StringBytes_get")]),
         ("StringBytes", "slice", "(self_ : Str) (start end_ : U64)", "Option Str", "StringBytes", &[("slice", "StringBytes_slice")]),
@@ -719,6 +1024,12 @@ pub fn c10builtins(repo: &Path) -> Result<String, String> {
         ("RotoString", "repeat", "(self_ : Str) (n : U64)", "Lim Str", "String", &[("repeat", "RotoString_repeat")]),
         ("RotoString", "splitn", "(self_ : Str) (n : U64) (separator : Str)", "List Str", "String", &[("splitn", "RotoString_splitn")]),
         ("RotoString", "rsplitn", "(self_ : Str) (n : U64) (separator : Str)", "List Str", "String", &[("rsplitn", "RotoString_rsplitn")]),
+        ("RotoString", "contains", "(self_ : Str) (needle : Str)", "Bool", "String", &[("contains", "RotoString_contains")]),
+        ("RotoString", "starts_with", "(self_ : Str) (prefix_ : Str)", "Bool", "String", &[("starts_with", "RotoString_starts_with")]),
+        ("RotoString", "ends_with", "(self_ : Str) (suffix : Str)", "Bool", "String", &[("ends_with", "RotoString_ends_with")]),
+        ("RotoString", "strip_prefix", "(self_ : Str) (prefix_ : Str)", "Option Str", "String", &[("strip_prefix", "RotoString_strip_prefix")]),
+        ("RotoString", "strip_suffix", "(self_ : Str) (suffix : Str)", "Option Str", "String", &[("strip_suffix", "RotoString_strip_suffix")]),
+        ("RotoString", "split", "(self_ : Str) (separator : Str)", "List Str", "String", &[("split", "RotoString_split")]),
         ("Prefix", "new", "(ip : IpAddr) (len : U8)", "Prefix", "Prefix", &[]),
         ("ErasedList", "swap", "(self_ : RawListS) (i j : U64)", "Option (USz × USz)", "List", &[("swap", "RawList_swap")]),
         // `List.join`: the list of strings as the host-side `List<RotoString>` it is transmuted to;
@@ -748,7 +1059,29 @@ pub fn c10builtins(repo: &Path) -> Result<String, String> {
     }
 
     // ------------------------------------------------------- panic surfaces
-    out.push_str("/-- syntactic constructs that can panic (or need care) inside a body -/\ninductive Risk where\n  | unwrap | expect | index | panic_macro | arith | cast | unsafe_\n  deriving DecidableEq, Repr\n\n");
+    out.push_str("/-- constructs that can panic (or need care) inside a body: the syntactic ones, and every call\n    classified against the translator's tables of std functions — `partial_call`: documented to panic on\n    some arguments (`split_at`, `remove`, `with_capacity`, `sum`, …); `unknown_call`: not in the table of\n    functions read as total -/\ninductive Risk where\n  | unwrap | expect | index | panic_macro | arith | cast | unsafe_ | partial_call | unknown_call | lock_unwrap\n  deriving DecidableEq, Repr\n\n");
+    // the project's own value-type methods: every inherent method of string.rs and every fn of list.rs
+    struct Names(HashSet<String>);
+    impl<'ast> Visit<'ast> for Names {
+        fn visit_impl_item_fn(&mut self, f: &'ast syn::ImplItemFn) {
+            self.0.insert(f.sig.ident.to_string());
+        }
+        fn visit_item_fn(&mut self, f: &'ast syn::ItemFn) {
+            self.0.insert(f.sig.ident.to_string());
+        }
+        fn visit_item_mod(&mut self, m: &'ast syn::ItemMod) {
+            if m.ident != "tests" {
+                syn::visit::visit_item_mod(self, m);
+            }
+        }
+    }
+    let mut own = Names(HashSet::new());
+    let string_buf = find::parse(repo, "src/value/string_buf.rs")?;
+    own.visit_file(&string);
+    own.visit_file(&string_buf);
+    own.visit_file(&list);
+    let own = own.0;
+    let mut notes: Vec<String> = vec![];
     let mut seen = HashSet::new();
     let mut tab = vec![];
     for f in &fns {
@@ -756,15 +1089,19 @@ pub fn c10builtins(repo: &Path) -> Result<String, String> {
         while !seen.insert(c.clone()) {
             c.push('\'');
         }
-        tab.push((c, surface_of(&f.body)));
+        let (risks, unknown) = surface_of(&f.body, &own);
+        if !unknown.is_empty() {
+            notes.push(format!("Binding.{c}: {}", unknown.join(", ")));
+        }
+        tab.push((c, risks));
     }
     if tab.len() < 60 {
         return Err(format!("only {} binding functions found in basic.rs's library! blocks", tab.len()));
     }
     out.push_str(&surface_table("Binding", &tab));
     // every method of string.rs
-    struct M(Vec<(String, Vec<&'static str>)>, Option<String>);
-    impl<'ast> Visit<'ast> for M {
+    struct M<'o>(Vec<(String, Vec<&'static str>)>, Option<String>, &'o HashSet<String>, Vec<String>);
+    impl<'ast> Visit<'ast> for M<'_> {
         fn visit_item_impl(&mut self, i: &'ast syn::ItemImpl) {
             if i.trait_.is_none() {
                 self.1 = Some(i.self_ty.to_token_stream().to_string().replace(' ', ""));
@@ -774,14 +1111,28 @@ pub fn c10builtins(repo: &Path) -> Result<String, String> {
         }
         fn visit_impl_item_fn(&mut self, f: &'ast syn::ImplItemFn) {
             if let Some(t) = &self.1 {
-                self.0.push((ctor_name(t, &f.sig.ident.to_string()), surface_of(&f.block)));
+                let c = ctor_name(t, &f.sig.ident.to_string());
+                let (risks, unknown) = surface_of(&f.block, self.2);
+                if !unknown.is_empty() {
+                    self.3.push(format!("StrFn.{c}: {}", unknown.join(", ")));
+                }
+                self.0.push((c, risks));
             }
         }
         fn visit_item_mod(&mut self, _m: &'ast syn::ItemMod) {} // skip `mod tests`
     }
-    let mut m = M(vec![], None);
+    let mut m = M(vec![], None, &own, vec![]);
     m.visit_file(&string);
+    m.visit_file(&string_buf);
     out.push_str(&surface_table("StrFn", &m.0));
+    notes.extend(m.3);
+    if !notes.is_empty() {
+        out.push_str("/- calls the translator's tables do not know (each is a `Risk.unknown_call` above):\n");
+        for n in &notes {
+            out.push_str(&format!("   {n}\n"));
+        }
+        out.push_str("-/\n\n");
+    }
     out.push_str(&footer("C10Builtins"));
     Ok(out)
 }
@@ -1704,6 +2055,17 @@ pub fn c10locks(repo: &Path) -> Result<String, String> {
     if lf.out.len() < 40 {
         return Err(format!("only {} functions found in src/value/list.rs", lf.out.len()));
     }
+    let scanned_list_fns = lf.out.len();
+    // `StringBuf` (src/value/string_buf.rs) is the other built-in type behind an `Arc<Mutex<..>>`: its
+    // methods and its `==` run below compiled code too.  The host cannot name the type (it is not
+    // exported), so a StringBuf never crosses threads: its functions are marked `threadLocal`
+    // (what has to hold for them is that a call never waits for itself: `a == a`).
+    let string_buf = find::parse(repo, "src/value/string_buf.rs")?;
+    lf.visit_file(&string_buf);
+    let buf_owner = |owner: &str| owner == "StringBuf" || owner.ends_with("_for_StringBuf");
+    // read, not assumed: src/lib.rs (the crate's public surface; `mod value` is private) does not mention
+    // the type.  If it ever does, the functions count as reached by several threads (`reachedByBuiltins`).
+    let buf_exported = std::fs::read_to_string(repo.join("src/lib.rs")).map_err(|e| format!("src/lib.rs: {e}"))?.contains("StringBuf");
     // helpers: functions that hand out a guard (their single acquisition is charged to the caller)
     let none = BTreeMap::new();
     let mut helpers: BTreeMap<String, (&'static str, &'static str)> = BTreeMap::new();
@@ -1796,10 +2158,10 @@ pub fn c10locks(repo: &Path) -> Result<String, String> {
         }
         Calls(&mut called).visit_block(&f.body);
     }
-    let mut out = header("C10Locks", &["src/value/list.rs", "src/runtime/basic.rs"])
+    let mut out = header("C10Locks", &["src/value/list.rs", "src/value/string_buf.rs", "src/runtime/basic.rs"])
         .replace("import RotoV.Model.Clif\n", "import RotoV.Model.Clif\nimport RotoV.Model.MutexPanic\n");
     out.push_str("open RotoV.MutexPanic\n\n");
-    out.push_str(&format!("/-- functions scanned in src/value/list.rs (outside `mod tests`) -/\ndef scannedListFns : Nat := {}\n\n", lf.out.len()));
+    out.push_str(&format!("/-- functions scanned in src/value/list.rs (outside `mod tests`) -/\ndef scannedListFns : Nat := {}\n\n", scanned_list_fns));
     out.push_str(&format!("/-- guard-returning helpers resolved at their call sites -/\ndef guardHelpers : List String := [{}]\n\n",
         by_method.keys().map(|k| format!("\"{k}\"")).collect::<Vec<_>>().join(", ")));
     out.push_str("inductive LockFn where\n");
@@ -1820,7 +2182,11 @@ pub fn c10locks(repo: &Path) -> Result<String, String> {
         let is_binding = owner == "binding";
         let host_called = !is_erased && !is_binding && owner.contains("List") && !owner.contains("RawList")
             && called.iter().any(|m| base.ends_with(&format!("_{m}")));
-        out.push_str(&format!("  | .{c} => {}\n", is_erased || is_ffi || is_binding || host_called));
+        out.push_str(&format!("  | .{c} => {}\n", is_erased || is_ffi || is_binding || host_called || (buf_owner(owner) && buf_exported)));
+    }
+    out.push_str("\n/-- functions of `StringBuf` (src/value/string_buf.rs): reached by compiled code (methods, `==`), but the\n    type is not exported to the host, so a value never crosses threads -/\ndef LockFn.threadLocal : LockFn → Bool\n");
+    for (c, owner, _) in &rows {
+        out.push_str(&format!("  | .{c} => {}\n", buf_owner(owner) && !buf_exported));
     }
     out.push('\n');
     out.push_str(&footer("C10Locks"));
